@@ -246,6 +246,19 @@ def registry_leg(ctx):
                 w3 = 'clause:%s:%s' % (clause, tname(col.dtype))
                 run_event(conn, mk(), w3 + '@%s.%s' % (tn, cn), events, ctx, fmt=False)
                 ctx.case(w3 + tn + cn, True)
+    # the same columns over the entries a FROM clause with OPEN / CLOSE / CLEAR presents: the summarisation directives it
+    # synthesises (no metadata, no payee, flag 'S' ...) are conforming data of the ledger tables too
+    for quals in ('OPEN ON 2019-07-01', 'CLOSE ON 2020-03-01', 'CLEAR', 'OPEN ON 2019-07-01 CLOSE ON 2020-03-01 CLEAR', 'year = 2019 OPEN ON 2019-07-01 CLEAR'):
+        for cn, col in conn.tables['postings'].columns.items():
+            what = 'col:postings[%s].%s' % (quals, cn)
+            run_event(conn, 'SELECT %s AS r FROM %s' % (cn, quals), what, events, ctx, fmt=(quals.startswith('OPEN ON 2019-07-01 CLOSE')))
+            ctx.case(what, True)
+            dtype = types.ALIASES.get(col.dtype, col.dtype)
+            if quals == 'OPEN ON 2019-07-01 CLOSE ON 2020-03-01 CLEAR' and isinstance(dtype, type) and issubclass(dtype, types.Structure):
+                for an in dtype.columns:
+                    w2 = 'attr:postings[%s].%s.%s' % (quals, cn, an)
+                    run_event(conn, 'SELECT %s.%s AS r FROM %s' % (cn, an, quals), w2, events, ctx, fmt=False)
+                    ctx.case(w2, True)
     # pivoted results announce the datatypes of the remaining columns, wherever the pivot columns sit
     for text in ("SELECT sum(cd) AS t, cs, ci FROM #types WHERE cs IS NOT NULL AND ci IS NOT NULL GROUP BY cs, ci PIVOT BY cs, ci",
                  "SELECT cs, sum(cd) AS t, ci, count(*) AS n FROM #types WHERE cs IS NOT NULL AND ci IS NOT NULL GROUP BY cs, ci PIVOT BY 1, 3",
